@@ -58,23 +58,24 @@ class FISTA(BaseSolver):
         else:
             lipschitz = datafit.get_global_lipschitz(X, y)
 
+        def _gradient(v, Xv):
+            # gradient of the datafit at the point ``v`` (with ``Xv = X @ v``)
+            if X_is_sparse:
+                if hasattr(datafit, "gradient_sparse"):
+                    return datafit.gradient_sparse(
+                        X.data, X.indptr, X.indices, y, Xv)
+                return construct_grad_sparse(
+                    X.data, X.indptr, X.indices, y, v, Xv, datafit, all_features)
+            if hasattr(datafit, "gradient"):
+                return datafit.gradient(X, y, Xv)
+            return construct_grad(X, y, v, Xv, datafit, all_features)
+
         for n_iter in range(self.max_iter):
             t_old = t_new
             t_new = (1 + np.sqrt(1 + 4 * t_old ** 2)) / 2
             w_old = w.copy()
 
-            if X_is_sparse:
-                if hasattr(datafit, "gradient_sparse"):
-                    grad = datafit.gradient_sparse(
-                        X.data, X.indptr, X.indices, y, X @ z)
-                else:
-                    grad = construct_grad_sparse(
-                        X.data, X.indptr, X.indices, y, z, X @ z, datafit, all_features)
-            else:
-                if hasattr(datafit, "gradient"):
-                    grad = datafit.gradient(X, y, X @ z)
-                else:
-                    grad = construct_grad(X, y, z, X @ z, datafit, all_features)
+            grad = _gradient(z, X @ z)
 
             step = 1 / lipschitz
             z -= step * grad
@@ -84,6 +85,10 @@ class FISTA(BaseSolver):
                 w = _prox_vec(w, z, penalty, step)
             Xw = X @ w
             z = w + (t_old - 1.) / t_new * (w - w_old)
+
+            # the optimality violation is that of the iterate ``w``:
+            # ``grad`` above was computed at the extrapolated point
+            grad = _gradient(w, Xw)
 
             if self.opt_strategy == "subdiff":
                 opt = penalty.subdiff_distance(w, grad, all_features)
